@@ -651,6 +651,10 @@ func runC19(c *ctx) {
 		}
 	}
 	c.c19xWidthProbe()
+	// 2b. hash.New(initial...) with unwritable items, Message.Hash() one-field variants, identifiers embedding length prefixes (c19_new.go)
+	c.c19nNewAll(r)
+	c.c19nMessagesAll(r)
+	c.c19nIDSlicePrefix(r)
 	// 3. commitments
 	nCom := 60
 	if c.thorough() {
@@ -760,6 +764,9 @@ func (c *ctx) c19Commit(r *rand.Rand, s []sx.V) {
 
 func c19Replay_(c *ctx) {
 	// replay file: JSON with seq_a / seq_b; re-run the digest comparison
+	if c.c19nReplayRun() {
+		return
+	}
 	var rp c19Replay
 	if err := readJSON(c.replay, &rp); err != nil {
 		c.res.Note("cannot read replay: %v", err)
